@@ -23,7 +23,7 @@ def frag_task(task):
     else:
         body = norm.render(rp.lines + comp) + frag + ("\n" if mode == "last-nl" else "")
     pre, npre, pretext = progrun.pre_tokens(ftype, fname)
-    r = impl.run_text(fname, body, pre_tokens=pre, line0=npre + 1, trace=True)
+    r = impl.run_text(fname, body, pre_tokens=pre, line0=npre + 1, trace=True, pretext=pretext)
     probs, nseg, unrec = progrun.segmentation(r)
     out = {"unrec": unrec, "exc": r.exc, "status": r.status, "stdout": r.stdout, "seg": probs, "viol": None}
     if r.exc is not None and r.exc[0] != "CParsingError":
